@@ -206,6 +206,46 @@ let run_l () =
   st := st';
   String.concat " ; " (List.rev (("final=" ^ chk ()) :: !outs))
 
+(* H <op>... : readers and a writer interleaved over one shared buffer (see harness runH) *)
+let run_h () =
+  let st = ref h_init in
+  let outs = ref [] in
+  let cur k = sz (List.nth !st.h_curs k) in
+  while !toks <> [] do
+    let f = String.split_on_char ':' (next ()) in
+    let o = match f with
+      | ["w"; h] -> let bs = bytes_of_hex h in
+        let (st', out) = h_step !st (HWrite (Some bs, len bs)) in st := st';
+        (match out with HOk -> "ok|" ^ string_of_int (List.length st'.h_buf) | _ -> "oob")
+      | ["wn"; n] ->
+        let (st', out) = h_step !st (HWrite (None, zs n)) in st := st';
+        (match out with HOk -> "ok|" ^ string_of_int (List.length st'.h_buf) | _ -> "oob")
+      | ["new"] ->
+        let (st', out) = h_step !st HNew in st := st';
+        (match out with HReader k -> "reader=" ^ string_of_int (int_of_nat k) | _ -> "?")
+      | op :: ks :: rest ->
+        let k = int_of_string ks in
+        if k >= List.length !st.h_curs then "bad" else
+          let hop = match op, rest with
+            | "rd", [s; m] -> HRead (nat_of_int k, m = "1", zs s)
+            | "vw", [c] -> HView (nat_of_int k, zs c)
+            | "end", [] -> HEnd (nat_of_int k)
+            | _ -> failwith "bad op" in
+          let buf = !st.h_buf in
+          let (st', out) = h_step !st hop in
+          st := st';
+          (match out with
+           | HBytes bs -> "ok:" ^ hex_of_bytes bs
+           | HViewed (off, size) ->
+             if size = Z0 then "view:-:0:-"
+             else "view:" ^ sz off ^ ":" ^ sz size ^ ":" ^ (match fetch buf off size with Some bs -> hex_of_bytes bs | None -> "OOB")
+           | HEndIs b -> "end=" ^ (if b then "1" else "0")
+           | HThrow -> "throw" | HOob -> "oob" | _ -> "?") ^ "|" ^ cur k
+      | _ -> failwith "bad op" in
+    outs := o :: !outs
+  done;
+  String.concat " ; " (List.rev !outs)
+
 let run_w () =
   let buf = ref (Some []) and total = ref Z0 and sizes = ref [] in
   while !toks <> [] do
@@ -232,6 +272,7 @@ let () =
           | "F" :: rest -> toks := rest; run_f ()
           | "W" :: rest -> toks := rest; run_w ()
           | "L" :: rest -> toks := rest; run_l ()
+          | "H" :: rest -> toks := rest; run_h ()
           | _ -> "") with Failure m -> "driver-error:" ^ m in
       print_endline out
     done with End_of_file -> ()
